@@ -1,9 +1,9 @@
 (* C03 — Reported best hand is a sorted five-card witness drawn from the input.
-   Statements only; proofs in Proofs/FreeFacts.v. They need the slot tables to be well formed (five
+   Statements only; proofs in Proofs/FreeFacts.v and Proofs/C03.v. They need the slot tables to be well formed (five
    distinct in-range indices per row) and the lookup tables to have their lengths, but NOT the contents of
    the lookup tables nor completeness of the slot tables (those matter for C01 / C02 / C09). *)
 From CKC Require Import Base.Prelude Base.SortN Spec.Layout.
-From CKC Require Import Model.Five Proofs.FreeFacts.
+From CKC Require Import Model.Five Proofs.FreeFacts Proofs.C03.
 Open Scope N_scope.
 
 (* five-card input: whenever ranking returns, the reported hand is the input unchanged (ANY words) *)
